@@ -114,7 +114,7 @@ package values
 //@   ensures found-single: result && !multi ==> len(trace) > len(old(trace)) &&
 //@       (exists j int :: 0 <= j && j < len(vars) && env(vars[j]) != "" && trace[len(trace)-1] == evSet(into, env(vars[j]), true))
 //@   ensures not-found-single: !result && !multi ==> (forall i int :: len(old(trace)) <= i && i < len(trace) && trace[i].kind == 5 ==> trace[i].b == 0)
-//@   ensures empty-list: len(envVars) == 0 ==> !result && trace == old(trace)
+//@   ensures empty-list: len(envVars) == 0 ==> !result && trace == old(trace) && boxframe(0)
 //@   ensures true-iff-last-set-succeeded: result == (len(trace) > len(old(trace)) && trace[len(trace)-1].kind == 5 && trace[len(trace)-1].b == 1)
 //@   ensures found-multi: result && multi ==> (exists j int :: 0 <= j && j < len(vars) && env(vars[j]) != "" &&
 //@       trace == ((startTrace(1) ++ seq(evEnv(vars[j]))) ++ seq(evClear(into))) ++
